@@ -216,6 +216,16 @@ def families(tier, seed):
     return fams
 
 
+def _twin_segment_aliases():
+    def init(self, a, b):
+        self.line = Line(a, b)
+        self.start_point, self.end_point = a, b
+    Segment.__init__ = init
+
+
+TWINS = {'Segment keeps references to its argument points': (r'^own/Segment/move$', _twin_segment_aliases)}
+
+
 META = dict(
     title='queries are pure; composites own their data',
     level_text=('Bounded symbolic model checking of the real query code on operand pairs from the C01-C03 templates (1-2 real parameters): a full recursive '
